@@ -198,7 +198,8 @@ def hub_case(ctx, rng, idx):
         h.add_edge(e)
     listed = set(map(tuple, h.get_edges()))
     ctx.check("C12:degree", listed == set(edges) and len(h.get_edges()) == len(edges), "C12:hub:listing-differs-from-the-inserted-hyperedges", {"listed": len(listed), "inserted": len(edges)})
-    probe = [hub] + rng.sample(leaves, 5)
+    present = sorted({n for e in edges for side in e for n in side} - {hub})  # (queries about an absent node may raise: only members are probed)
+    probe = [hub] + rng.sample(present, 5)
     for kw in ({}, {"size": 2}, {"size": 3}, {"size": 4}, {"order": 1}, {"order": 2}, {"size": 5}):
         size = kw.get("size", kw.get("order", -2) + 1 if "order" in kw else None)
         sel = [e for e in edges if size is None or len(e[0]) + len(e[1]) == size]
